@@ -26,7 +26,7 @@ GUESTS = [("c01", 0.1), ("c02", 0.03), ("c03", 0.1), ("c04", 0.15), ("c06", 0.15
 STEPS = ['getlist', 'slice', 'put', 'add', 'mean', 'transpose', 'squeeze', 'newaxis', 'flatten', 'unflatten', 'reshape', 'reindex', 'align',
          'stack', 'concat', 'relabel', 'relabel_attr', 'labels_setter', 'rename', 'sort', 'querymono', 'querylabels', 'cumsum', 'setaxis',
          'dataset', 'dataset_rename', 'fullslice', 'take_axis', 'setaxis_dict', 'permute_labels', 'permute_labels', 'swapnames', 'rename_reuse',
-         'interp', 'getlist_name', 'getlist']
+         'interp', 'getlist_name', 'getlist', 'relabel_widen', 'relabel_widen', 'setaxis_from_other']
 
 
 def shards(tier, seed, scale=1.0):
@@ -303,9 +303,20 @@ def twin_program(case, ctx):
     def fresh(prefix):
         ctr[0] += 1
         return "%s%d" % (prefix, ctr[0])
+    pending = []
     for step in range(case["nsteps"]):
         x = rng.choice(pool)
         op = rng.choice(STEPS)
+        if pending:
+            # second half of 'setaxis_from_other': the array the labels were taken from is relabelled in place (first and last label exchanged)
+            y_, j_ = pending.pop()
+            try:
+                nv_ = y_.axes[j_].values.copy()
+                nv_[0], nv_[-1] = nv_[-1], nv_[0]         # (an ordered axis of more than two labels is no longer ordered)
+                y_.axes[j_][:] = nv_
+                hist.append(('relabel_source_swapped_ends', tuple(y_.dims)))
+            except Exception:
+                pass
         if x.ndim == 0 and op not in ('add', 'newaxis', 'align'):
             continue
         k = rng.randrange(x.ndim) if x.ndim else 0
@@ -382,6 +393,28 @@ def twin_program(case, ctx):
                 x.set_axis({ax.values[0]: 7000 + step}, axis=k)
             elif op == 'rename' and ax is not None and not isinstance(ax, MultiAxis):
                 ax.name = fresh(ax.name[0] + 'r')
+            elif op == 'relabel_widen' and plain and ax.size > 1 and ax.values.dtype.kind in 'iu':
+                # in-place relabelling that needs another label type (int -> float, int -> str), to labels in no particular order
+                x.mean(axis=k), x + x.ix[::-1] if not grouped else None        # (the axis has been aligned before: whatever that cached)
+                neu = [2.5 + 10 * step + 3 * ((7 * i_) % ax.size) for i_ in range(ax.size)]
+                if rng.random() < 0.4:
+                    neu = ["s%d" % v_ for v_ in neu]
+                how = rng.choice(['slice', 'set_axis', 'attr'])
+                if how == 'slice' or ',' in ax.name:
+                    ax[:] = neu
+                elif how == 'set_axis':
+                    x.set_axis(neu, axis=k)
+                else:
+                    setattr(x, ax.name, neu)
+            elif op == 'setaxis_from_other' and plain and ax.size > 1:
+                # labels taken from another live array (its label ndarray itself is passed) - which is relabelled in place afterwards
+                # (same labels in another order, same type): x keeps the labels it was given
+                cand = [(y_, j_) for y_ in pool for j_ in range(y_.ndim) if y_ is not x and not isinstance(y_.axes[j_], MultiAxis)
+                        and y_.axes[j_].size == ax.size and y_.axes[j_].values.dtype.kind in 'if' and len(set(y_.axes[j_].values.tolist())) > 1]
+                if cand:
+                    y_, j_ = rng.choice(cand)
+                    x.set_axis(y_.axes[j_].values, axis=k)
+                    pending.append((y_, j_))
             elif op == 'permute_labels' and plain and ax.size > 1:
                 # in-place relabelling with the same labels in another order (same dtype: the label buffer is written in place)
                 perm = ax.values.copy()
